@@ -108,6 +108,46 @@ MODEL_OF = {"start": "start", "nostart": "nostart", "probe": "start", "noalloc":
 # ------------------------------------------------------------------------------------------------
 # tools
 # ------------------------------------------------------------------------------------------------
+_STAGE = {"dir": None}
+
+
+def stage_dir():
+    """Everything the spawned child must reach (programs, cwd targets, the missing / busy paths, dumps)
+    lives in a fresh directory created at run time that ANY uid can traverse - the check must not depend
+    on where /verif is installed (a child that has done setuid(nobody) cannot search a 0700 path) - and is
+    removed again at the end."""
+    import tempfile
+    if _STAGE["dir"] is None:
+        for parent in ("/var/tmp", tempfile.gettempdir()):
+            try:
+                d = tempfile.mkdtemp(prefix="verif-c13-", dir=parent)
+                os.chmod(d, 0o755)
+                _STAGE["dir"] = d
+                break
+            except OSError:
+                continue
+        if _STAGE["dir"] is None:
+            raise core.ToolError("cannot create a staging directory")
+    return _STAGE["dir"]
+
+
+def stage_cleanup():
+    if _STAGE["dir"]:
+        shutil.rmtree(_STAGE["dir"], ignore_errors=True)
+        _STAGE["dir"] = None
+
+
+def staged_helper(tools):
+    """one copy of the helper on the staging file system (run directories hard-link it)"""
+    dst = os.path.join(stage_dir(), "spawn_helper")
+    if not os.path.exists(dst):
+        tmp = dst + ".tmp%d" % os.getpid()
+        shutil.copy(os.path.join(tools, "spawn_helper"), tmp)
+        os.chmod(tmp, 0o755)
+        os.replace(tmp, dst)
+    return dst
+
+
 def build_tools():
     out = os.path.join(core.WORK, "C13-tools")
     os.makedirs(out, exist_ok=True)
@@ -219,7 +259,8 @@ def model_selftest_jobs(chk, ex):
     futs = {}
     for dev, start in (("ChildReturnsErr", True), ("ExecveNegErrno", True), ("EnvTestInverted", False), ("WaitHoldsPipes", True),
                        ("TryWaitNoCache", True), ("EintrNotRetried", True),
-                       ("EintrReturnsAtOnce", True), ("ExecveRetriesEtxtbsy", True), ("ChildClosesDupSource", True)):
+                       ("EintrReturnsAtOnce", True), ("ExecveRetriesEtxtbsy", True), ("ChildClosesDupSource", True),
+                       ("PreExecLastWins", True)):
         futs[dev] = ex.submit(_selftest_dev, chk, dev, start)
     for dev in ("ParentKeepsOutWrite", "ChildKeepsInWrite"):
         futs["flow:" + dev] = ex.submit(_selftest_flow, chk, dev)
@@ -438,9 +479,9 @@ def execute(job):
     try:
         if job["plan"]["cfg"].get("prog") == "busy":
             raise OSError("a private copy: the file will be held open for writing")
-        os.link(os.path.join(job["tools"], "spawn_helper"), helper)
+        os.link(staged_helper(job["tools"]), helper)
     except OSError:
-        shutil.copy(os.path.join(job["tools"], "spawn_helper"), helper)
+        shutil.copy(staged_helper(job["tools"]), helper)
     for s in range(3):
         with open(os.path.join(rundir, "raw%d" % s), "w") as fh:
             fh.write("raw%d\n" % s)
@@ -822,6 +863,13 @@ def signature(plan, variant, clause, verdict):
 
 # ------------------------------------------------------------------------------------------------
 def run(tier):
+    try:
+        return _run(tier)
+    finally:
+        stage_cleanup()
+
+
+def _run(tier):
     chk = core.Check("C13", tier, "model_checking")
     import time
     t0 = time.time()
@@ -875,9 +923,11 @@ def run(tier):
                 "flow_plans_executed": len(fl_ok), "flow_plans_blocking_by_themselves_executed": len(fl_hang),
                 "reused_command_plans": len([p for p in chosen if p["cfg"].get("respawn", "none") != "none"])}
         bindir = core.cargo_build(template=template, bins=None if template.startswith("probe/") else ["spawnd"])
-        base = os.path.join(chk.work, "runs-" + variant)
+        base = os.path.join(stage_dir(), "runs-" + variant)
         if os.path.isdir(base):
             shutil.rmtree(base)
+        os.makedirs(base)
+        os.chmod(base, 0o755)
         jobs = []
         for p in chosen:
             kinds = [None]
@@ -1013,10 +1063,11 @@ def record_fixture():
     for i, p in enumerate(plans):
         r = execute({"idx": i + 1, "plan": p, "variant": "start", "bindir": bindir, "tools": tools,
                      "helper": "h7c" if p.get("flow") else None,
-                     "rundir": os.path.join("/tmp/c13-fixture", "r%d" % (i + 1))})
+                     "rundir": os.path.join(stage_dir(), "fixture", "r%d" % (i + 1))})
         runs.append({"idx": r["idx"], "events": r["events"]})
     with open(FIXTURE, "w") as fh:
         json.dump(runs, fh, indent=0)
+    stage_cleanup()
     return runs
 
 
@@ -1125,12 +1176,19 @@ def selftest():
 
 
 def replay(path):
+    try:
+        return _replay(path)
+    finally:
+        stage_cleanup()
+
+
+def _replay(path):
     rp = json.load(open(path))["replay"]
     chk = core.Check("C13", "quick", "model_checking")
     tools = build_tools()
     variant = rp["variant"]
     bindir = core.cargo_build(template=VARIANTS[variant][0], bins=None if VARIANTS[variant][0].startswith("probe/") else ["spawnd"])
-    job = {"idx": 1, "plan": rp["plan"], "variant": variant, "rundir": os.path.join(chk.work, "replay", "r1"),
+    job = {"idx": 1, "plan": rp["plan"], "variant": variant, "rundir": os.path.join(stage_dir(), "replay", "r1"),
            "bindir": bindir, "tools": tools, "helper": rp.get("helper")}
     r = execute(job)
     v = judge(chk, [r], "replay")[0][1]
